@@ -146,6 +146,9 @@ def run_case(cs):
     rng = cs.rng
     _obs["short"] = None
     mode = rng.random()
+    force_large = cs.seed_str.endswith((":0", ":1", ":2"))
+    if force_large:
+        mode = 1.0
     if mode < 0.12:
         return _codec_case(cs, H)
     if mode < 0.18:
@@ -155,7 +158,13 @@ def run_case(cs):
     if mode < 0.28:
         return _threads_case(cs, H)
     n = _sizes(rng)
-    data = world.gen_bytes(rng, n)
+    large = None
+    if force_large or (cs.tier == "thorough" and rng.random() < 0.0004):
+        # camera originals: well beyond any buffer the reader might reuse (64 full chunks and more)
+        large = rng.choice([64 * MIB + 1, 65 * MIB + 5, 64 * MIB, 130 * MIB + 77])
+        n = large
+        cs.count("files_of_64MiB_and_more")
+    data = world.gen_bytes(rng, n) if large is None else rng.randbytes(n)
     _obs["short"] = env.rng_for(cs.seed_str, "short-reads") if rng.random() < 0.3 else None
     if _obs["short"] is not None:
         cs.count("cases_with_injected_short_reads")
@@ -212,7 +221,7 @@ def run_case(cs):
         _cmp(cs, f, "multi_data", multid.get(f), want[f], n)
     # --- CLI entry points
     cli = [f for f in subset if f in CLI_FMT]
-    if cli and (n <= 70000 or rng.random() < 0.5):
+    if cli and (n <= 70000 or large is not None or rng.random() < 0.5):
         r = drive.run("create", [root] + world.fmt_args(cli + ([rng.choice(cli)] if rng.random() < 0.25 else [])))
         if r.exit != 0:
             cs.violation("create-failed", {"kind": "create-failed", "exit": r.exit, "exc": r.exc_class}, r.brief())
